@@ -420,23 +420,33 @@ class SessionHandler:
 
 
     @staticmethod
+    def _next() -> None:
+        #: (init, id) only ever grows: the low part stays within 32 bits by
+        #: carrying into the high part, and the high part never goes back.
+        SessionHandler.id += 1
+        if SessionHandler.id > 0xFFFFFFFF:
+            SessionHandler.init += 1
+            SessionHandler.id = 0
+
+
+    @staticmethod
     def _verify_session_id(previous: str, current: str) -> None:
         if previous is not None:
             _previous = previous.split(";")
 
             if _previous:
                 if current == _previous[0]:
-                    SessionHandler.id += 1
+                    SessionHandler._next()
                     return
 
             #: The identity has changed: refresh the high part, but never
             #: rewind the counter, otherwise Session-Ids already issued in
             #: this process would be issued again.
-            SessionHandler.init = SessionHandler._now()
-            SessionHandler.id += 1
+            SessionHandler.init = max(SessionHandler.init, SessionHandler._now())
+            SessionHandler._next()
             return
         
-        SessionHandler.id += 1
+        SessionHandler._next()
 
 
 SessionHandler()
